@@ -286,6 +286,11 @@ func driveField(c *ctx) {
 			c.E("fe.SetWide", "in", hx(b), "len", l, "panic", pn, "out", o)
 		}
 	}
+	for _, b := range wideFoldInputs(r) { // aimed at the carries of a special-form fold (round 8)
+		rcv := feJunk(r)
+		rcv.SetWideBytes(b)
+		c.E("fe.SetWide", "in", hx(b), "len", len(b), "panic", false, "out", feHex(rcv), "fold", true)
+	}
 	// NewElementFromUint64, Zero, One
 	for _, u := range []uint64{0, 1, 2, 1 << 31, 1 << 32, 1<<63 - 1, 1 << 63, 0xffffffffffffffff, r.Uint64()} {
 		c.E("fe.FromUint64", "in", hx(be32(new(big.Int).SetUint64(u))[:]), "out", feHex(field.NewElementFromUint64(u)))
